@@ -1,5 +1,5 @@
 //! C17 correspondence: the six string instructions (`==` `!=` `<` `<=` `>` `>=` `..`) executed by the
-//! real compiler + VM on structured string pairs, at step budgets 1..8 (the embedder hands the
+//! real compiler + VM on structured string pairs, at step budgets 1..8 and one of {127,128,129,200,333,1000} (the embedder hands the
 //! runtime `k` steps at a time, so budget boundaries fall inside the one-byte-per-step
 //! instructions), in four operand forms (literal, variable, function argument, fresh heap string)
 //! and under allocation pressure (the collector works between the steps of the instruction).
@@ -323,7 +323,10 @@ fn main() {
     for (a, b, class) in &ps {
         // every pair at every budget 1..8; the operand form rotates so each (class, budget, form) occurs
         let f0 = ctx.rng.below(FORMS.len() as u64) as usize;
-        for k in 1u32..=8 {
+        // budgets 1..8 cut inside the byte-per-step instructions; one rotating large budget (a slice that ends
+        // by exhaustion after hundreds of steps, possibly in the middle of an operation) per pair as well
+        let big = [127u32, 128, 129, 200, 333, 1000][ctx.rng.below(6) as usize];
+        for k in (1u32..=8).chain(std::iter::once(big)) {
             let form = FORMS[(f0 + k as usize) % FORMS.len()];
             if form == "gc" && a.len() + b.len() > 120 { continue; }
             let src = program(form, a, b, &mut ctx.rng);
